@@ -1,4 +1,4 @@
-\* C01: the UDP relation on the ideal relay, 1-3 clients; one USHAPE line each
+\* C01: the UDP relation on the ideal relay, 1-3 clients, idle periods, two targets; one USHAPE line each
 SPECIFICATION Spec
 CONSTANTS
   MaxW = 1
@@ -7,4 +7,4 @@ CONSTANTS
   Proto = "udp"
   Gen = TRUE
   MaxK = 3
-INVARIANTS U_Datagram U_Header U_Client U_Source U_Reply U_RoundTrip
+INVARIANTS U_Target U_Datagram U_Header U_Client U_Source U_Reply U_RoundTrip
